@@ -120,9 +120,24 @@ def _sift_stub_factory(c, ncols):
         c2 = core.C()
         x = vreify(X)
         k = max_imfs if isinstance(max_imfs, int) else ncols
-        c2.ghost.setdefault('sift_inputs', []).append({'x': x, 'X': X, 'job': c2.ghost['stream'].job, 'max_imfs': max_imfs})
+        c2.ghost.setdefault('sift_inputs', []).append({'x': x, 'X': X, 'job': c2.ghost['stream'].job, 'max_imfs': max_imfs,
+                                                        'opts': {'imf_opts': imf_opts, 'envelope_opts': envelope_opts, 'extrema_opts': extrema_opts}})
         return SArr((X.shape_e[0], k), lambda t, j: SF(x, t, j), 'f')
     return sift_stub
+
+
+# the caller's (non-default) option set: every decomposition of every member - both signs of a flip member included - must run under it
+# (SF models the sift as a function of its input vector under ONE fixed option set; that every call uses that set is this obligation)
+OPTS = {'imf_opts': {'stop_method': 'rilling', 'env_step_size': 0.75}, 'envelope_opts': {'interp_method': 'mono_pchip'}, 'extrema_opts': {'pad_width': 3, 'parabolic_extrema': True}}
+
+
+def _opts_kw():
+    return {k_: dict(v_) for k_, v_ in OPTS.items()}
+
+
+def _oblige_opts(c, calls):
+    bad = [cl['opts'] for cl in calls if {k_: (dict(v_) if isinstance(v_, dict) else v_) for k_, v_ in cl['opts'].items()} != OPTS]
+    c.oblige('post:every-decomposition-runs-under-the-callers-option-set', z3.BoolVal(not bad), 'post', note='first deviating call: %r' % (bad[:1],))
 
 
 def _setup(c, nproc):
@@ -139,7 +154,7 @@ def _mk_ens(nens, nproc, mode, zero):
     def mk(c):
         _setup(c, nproc)
         X = SArr((N,), lambda t: XV[t], 'f')
-        kw = dict(nensembles=nens, nprocesses=nproc, noise_mode=mode, max_imfs=2, ensemble_noise=SReal(z3.RealVal(0)) if zero else SReal(ENOISE))
+        kw = dict(nensembles=nens, nprocesses=nproc, noise_mode=mode, max_imfs=2, ensemble_noise=SReal(z3.RealVal(0)) if zero else SReal(ENOISE), **_opts_kw())
         return (X,), kw
     return mk
 
@@ -151,6 +166,7 @@ def _post_ens(nens, nproc, mode, zero):
         per = 2 if mode == 'flip' else 1
         c.oblige('post:samples-by-max_imfs', z3.And(ret.shape_e[0] == N, ret.shape_e[1] == 2), 'post')
         c.oblige('post:one-decomposition-per-member-and-sign', z3.BoolVal(len(calls) == nens * per), 'post')
+        _oblige_opts(c, calls)
         draws = [p for p in st.positions]
         c.oblige('post:one-noise-realisation-per-member', z3.BoolVal(len(draws) == nens), 'post')
         # distinct noise for every job-to-worker assignment
@@ -182,7 +198,7 @@ def _mk_swn(mode):
     def mk(c):
         _setup(c, 1)
         X = SArr((N, 1), lambda t, j: XV[t], 'f')
-        return (X,), dict(noise_scaling=SReal(ENOISE), noise_mode=mode, max_imfs=2, job_ind=None)
+        return (X,), dict(noise_scaling=SReal(ENOISE), noise_mode=mode, max_imfs=2, job_ind=None, **_opts_kw())
     return mk
 
 
@@ -191,6 +207,7 @@ def _post_swn(mode):
         st = c.ghost['stream']
         calls = c.ghost.get('sift_inputs', [])
         c.oblige('post:one-draw', z3.BoolVal(len(st.positions) == 1), 'post')
+        _oblige_opts(c, calls)
         if len(st.positions) != 1:
             return
         pos = st.positions[0][1]
@@ -381,10 +398,17 @@ def replay(w):
             ne, npr, mode = w['nensembles'], w['nprocesses'], w['noise_mode']
             if w.get('dtype'):       # the same recording stored as integer counts / in single precision
                 x = np.round(x * 500).astype(w['dtype']) if w['dtype'].startswith('int') else x.astype(w['dtype'])
-            out = emd.sift.ensemble_sift(x, nensembles=ne, nprocesses=npr, noise_mode=mode, ensemble_noise=0, max_imfs=w.get('cap', 3))
-            ref = emd.sift.sift(x, max_imfs=w.get('cap', 3))
+            so = {k_: dict(v_) for k_, v_ in (w.get('sift_opts') or {}).items()}        # non-default imf / envelope / extrema options, the same for both
+            fn_ = getattr(emd.sift, w.get('variant', 'ensemble_sift'))
+            out = fn_(x, nensembles=ne, nprocesses=npr, noise_mode=mode, ensemble_noise=0, max_imfs=w.get('cap', 3), **{k_: dict(v_) for k_, v_ in so.items()})
+            out = out[0] if isinstance(out, tuple) else out
+            ref = emd.sift.sift(x, max_imfs=w.get('cap', 3), **so)
+            if w.get('variant') == 'complete_ensemble_sift':
+                # (its last column is the remainder: the components before it are those of the classic sift)
+                out, ref = out[:, :min(out.shape[1], ref.shape[1]) - 1], ref[:, :min(out.shape[1], ref.shape[1]) - 1]
             if out.shape != ref.shape or not np.allclose(out, ref, rtol=1e-10, atol=1e-12):
-                return True, 'ensemble_sift with zero noise (nensembles=%d, nprocesses=%d, %s) differs from the classic sift with the same cap: max diff %.3g' % (ne, npr, mode, np.abs(out - ref).max() if out.shape == ref.shape else -1)
+                return True, '%s with zero noise (nensembles=%d, nprocesses=%d, %s%s) differs from the classic sift with the same cap%s: max diff %.3g' % (
+                    w.get('variant', 'ensemble_sift'), ne, npr, mode, ', options %s' % so if so else '', ' and options' if so else '', np.abs(out - ref).max() if out.shape == ref.shape else -1)
             return False, 'ok'
         if kind == 'mean':
             # the ensemble result against its own members: every member decomposition is recorded (worker processes inherit the
@@ -469,6 +493,18 @@ def refute(tier, seed, emit):
                     ok, msg = replay(w)
                     if ok:
                         emit.violation('zero-noise-equals-classic-sift', w, msg)
+    SOPTS = [{'extrema_opts': {'pad_width': 4}}, {'extrema_opts': {'parabolic_extrema': True}, 'envelope_opts': {'interp_method': 'pchip'}},
+             {'imf_opts': {'stop_method': 'rilling', 'env_step_size': 0.5}, 'extrema_opts': {'pad_width': 1}}]
+    emit.scope('zero noise under NON-DEFAULT sift options (%d sets: padding width, parabolic extrema + pchip, rilling rule + step size): ensemble_sift == classic sift with the same cap and the same options, nensembles {1, 2} x nprocesses {1, 2} x modes {single, flip}' % len(SOPTS))
+    for oi, so in enumerate(SOPTS):
+        for ne in (1, 2):
+            for npr in (1, 2):
+                for mode in ('single', 'flip'):
+                    emit.case(('zero-opts', oi, ne, npr, mode), nontrivial=True, contract='ensemble_sift')
+                    w = {'kind': 'zero_noise', 'nensembles': ne, 'nprocesses': npr, 'noise_mode': mode, 'cap': 3, 'sift_opts': so}
+                    ok, msg = replay(w)
+                    if ok:
+                        emit.violation('zero-noise-equals-classic-sift:non-default-options', w, msg)
     # recordings stored as integer counts / single precision: the ensemble is still the mean over its members, zero noise still the classic sift
     emit.scope('the same checks on a recording stored as int64 / int32 / float32: zero noise == classic sift (nensembles 3, nprocesses {1, 2}, both modes); result == per-IMF mean over the recorded members (nensembles 4, noise 0.5)')
     for dt in ('int64', 'int32', 'float32'):
